@@ -40,6 +40,7 @@ N_LIST = [1, 2, 3, 4, 8, 16, 64]
 DELTAS = [1.0e-3, 1.0, 40.0]
 OFFSETS = [0.0, -0.73]  # psi values of a tokamak are O(1) and need not start at 0
 LADDER = [2.0 ** (k / 4.0) for k in range(-20, 21)]  # 41 points, 2^-5 .. 2^5
+LADDER_THOROUGH = [2.0 ** (k / 8.0) for k in range(-40, 41)]  # 81 points, same span
 SWITCH = 1.0 + 1.0e-8  # branch switch of the code under test (|g*n| < |delta|*(1+1e-8))
 SWITCH_POINTS = [
     1.0 - 1.0e-9, 1.0, 1.0 + 1.0e-9,
@@ -64,15 +65,20 @@ FD_ROUND = 64.0  # evaluation noise allowed: FD_ROUND * eps * max|psi|
 
 # end values.  The property says "exactly"; the code reaches the unconstrained end through a
 # closed form (rounding only) or through a root solve whose own tests grant 1e-10 relative.
-# Granted here: 1e-9 of the segment width plus 64 ulp of the psi scale; measured worst
-# 2.3e-11 of the width.  Bit-exactness is counted separately as evidence.
-END_REL, END_ULPS = 1.0e-9, 64.0
+# Granted here: 5e-9 of the segment width plus 64 ulp of the psi scale; measured worst
+# 2.3e-11 of the width in lattice F and 2.1e-10 in lattice Q (inter-separatrix segment at
+# ratio 8).  Bit-exactness is counted separately as evidence.
+END_REL, END_ULPS = 5.0e-9, 64.0
 
 # continuity ladders (lattice K)
 K_STEP = 2.0**-12
 K_HALF = 256
 K_PROBES = [k / 8.0 for k in range(1, 8)]
-K2_BOUND = 40.0  # |d2f/dr2|/delta, ten times the worst observed (see worst_cont_second_diff)
+K2_BOUND = 4.0  # |d2f/dr2|/delta, ten times the worst observed (0.33)
+# the two branches meet continuously at the switch but (doubly constrained case) with a kink in
+# their dependence on the ratio: measured change of df/dr there 6.3e-3*delta; ten times that
+K_KINK = 0.063
+NEAR_SWITCH_HI = 1.0 + 2.0**-9
 K1_BOUND = 4.0  # |df/dr|/delta: (x - x^3) <= 0.385 for the cubic, times ten
 K_NOISE = 1.0e-10  # root-solver noise relative to delta
 
@@ -80,8 +86,7 @@ K_NOISE = 1.0e-10  # root-solver noise relative to delta
 GEOMS = ["lsn", "usn", "cdn", "udn", "ldn", "udn2"]
 SIGMAS = [1.0, -1.0]
 NXVEC = {
-    "quick": [dict(nx_core=2, nx_sol=2, nx_inter_sep=1), dict(nx_core=3, nx_sol=4, nx_inter_sep=2),
-              dict(nx_core=1, nx_sol=1, nx_inter_sep=1)],
+    "quick": [dict(nx_core=1, nx_sol=1, nx_inter_sep=1), dict(nx_core=3, nx_sol=4, nx_inter_sep=2)],
     "thorough": [dict(nx_core=2, nx_sol=2, nx_inter_sep=1), dict(nx_core=3, nx_sol=4, nx_inter_sep=2),
                  dict(nx_core=1, nx_sol=1, nx_inter_sep=1), dict(nx_core=5, nx_sol=3, nx_inter_sep=1),
                  dict(nx_core=4, nx_sol=6, nx_inter_sep=3, nx_pf=2),
@@ -98,13 +103,18 @@ RANGES = {
 RANGE_FORMS = {"quick": [("default", "psinorm"), ("asym", "psinorm"), ("asym", "psi")],
                "thorough": [("default", "psinorm"), ("asym", "psinorm"), ("asym", "psi"),
                             ("narrow", "psinorm"), ("narrow", "psi"), ("default", "psi")]}
-SMOOTH_NX = [8, 16, 32]
+# three nx levels (core/sol, inter-separatrix); the inter-separatrix segment gets a quarter of
+# the cells so that its end-gradient ratio stays O(multiplier) and all segments are in the
+# asymptotic regime of the extrapolation below
+SMOOTH_NX = [(32, 8), (64, 16), (128, 32)]
 SMOOTH_MULT = [0.5, 1.0, 2.0]
 DOUBLING_TOL = 1.0e-11  # relative to max|psi|; probe of the design: 0 .. 1.8e-13
-# after one Richardson step the face-width estimate of n*g has an O(n^-3) remainder
-# (measured <= 2e-4 at n=16); a gradient mismatch or a non-vanishing second derivative
-# leaves an O(1) or O(1/n) difference
-SMOOTH_TOL = 5.0e-3
+# n*(width of the cell touching the separatrix) = F + c2/n^2 + c3/n^3 + O(n^-4) when the
+# second derivative vanishes there (no 1/n term); F is the end gradient in units of 1/n.
+# Three levels determine F, c2, c3.  A gradient mismatch between the two sides leaves an O(1)
+# relative difference, a non-vanishing second derivative an O(1/n) one.
+# Measured worst 6.4e-4.
+SMOOTH_TOL = 1.0e-2
 
 
 # ==========================================================================================
@@ -142,10 +152,11 @@ def _build(case):
     return eq, eq.getSmoothMonotonicGridFunc(case["n"], case["lower"], case["upper"], **kw)
 
 
-def func_cases(seed):
+def func_cases(seed, tier="quick"):
     """the complete list of lattice-F cases (base lattice + the seed's phase copy)"""
-    ratios = [("base", r) for r in LADDER] + [("switch", r) for r in SWITCH_POINTS]
-    ratios += [("phase%d" % (seed % 8), r * PHASES[seed % 8]) for r in LADDER]
+    ladder = LADDER_THOROUGH if tier == "thorough" else LADDER
+    ratios = [("base", r) for r in ladder] + [("switch", r) for r in SWITCH_POINTS]
+    ratios += [("phase%d" % (seed % 8), r * PHASES[seed % 8]) for r in ladder]
     cases = []
     for n in N_LIST:
         for d in DELTAS:
@@ -178,6 +189,17 @@ def func_cases(seed):
     return cases
 
 
+def rclass(r):
+    """location class of a ratio relative to the code's branch switch, used in signatures"""
+    if r is None:
+        return "unconstrained"
+    if r <= SWITCH:
+        return "increasing-spacing branch"
+    if r <= NEAR_SWITCH_HI:
+        return "just above the branch switch"
+    return "decreasing-spacing branch"
+
+
 def run_func_case(case):
     """Execute one lattice-F case against the real code.  Returns dict(viol=[(sig, detail)],
     stats={...})."""
@@ -204,7 +226,11 @@ def run_func_case(case):
         viol.append(("func | end gradient of the wrong sign is accepted", dict(case=case)))
         return dict(viol=viol, stats=st)
 
+    rc = rclass(case["r"])
+    wsuffix = "_just_above_switch" if rc == "just above the branch switch" else ""
+
     def worst(key, val):
+        key = key + wsuffix
         if val == val and val > st["worst"].get(key, 0.0):
             st["worst"][key] = float(val)
 
@@ -222,7 +248,7 @@ def run_func_case(case):
         worst("end_residual_over_tolerance", res / tol_end)
         worst("end_residual_over_width", res / abs(delta))
         if not res <= tol_end:
-            viol.append(("func | end value | mode=%s end=%s" % (mode, which),
+            viol.append(("func | end value | mode=%s end=%s | %s" % (mode, which, rc),
                          dict(got=got, want=want, residual=res, tol=tol_end)))
     # --- monotonicity on the oversampled index set --------------------------------------
     idx = np.arange(0, OVERSAMPLE * n + 1) / float(OVERSAMPLE)
@@ -230,7 +256,7 @@ def run_func_case(case):
     sgn = 1.0 if delta > 0 else -1.0
     steps = np.diff(vals) * sgn
     if not np.all(np.isfinite(vals)):
-        viol.append(("func | non-finite value inside [0,n] | mode=%s" % mode,
+        viol.append(("func | non-finite value inside [0,n] | mode=%s | %s" % (mode, rc),
                      dict(first_bad_index=float(idx[np.argmin(np.isfinite(vals))]))))
     else:
         # no reversal anywhere on the lattice (4 ulp of the psi scale for evaluation noise;
@@ -239,11 +265,12 @@ def run_func_case(case):
         worst("reversal_in_ulps", max(rev, 0.0) / (EPS * max(scale, abs(delta))))
         if rev > 4.0 * EPS * max(scale, abs(delta)):
             k = int(np.argmin(steps))
-            viol.append(("func | not monotone on the oversampled index set | mode=%s" % mode,
+            viol.append(("func | not monotone on the oversampled index set | mode=%s | %s" % (mode, rc),
                          dict(index=float(idx[k]), step=float(steps[k] * sgn), strict_range=strict)))
         elif strict and not steps.min() > 0.0:
             k = int(np.argmin(steps))
-            viol.append(("func | not strictly monotone inside the reachable range | mode=%s" % mode,
+            viol.append(("func | not strictly monotone inside the reachable range | mode=%s | %s"
+                         % (mode, rc),
                          dict(index=float(idx[k]), step=float(steps[k]))))
         # integer indices by scalar calls must agree with the array evaluation
         ints = np.array([float(f(i)) for i in range(n + 1)])
@@ -275,11 +302,11 @@ def run_func_case(case):
                     worst("second_derivative_over_tolerance", e2 / t2)
                     if not e1 <= t1:
                         viol.append(("func | end gradient differs from the prescribed one | "
-                                     "mode=%s end=%s" % (mode, which),
+                                     "mode=%s end=%s | %s" % (mode, which, rc),
                                      dict(step=h, fd=d1, prescribed=g, err=e1, tol=t1)))
                     if not e2 <= t2:
                         viol.append(("func | second derivative does not vanish at constrained "
-                                     "end | mode=%s end=%s" % (mode, which),
+                                     "end | mode=%s end=%s | %s" % (mode, which, rc),
                                      dict(step=h, fd2=d2, normalised=e2, tol=t2)))
                 else:
                     worst("gradient_residual_over_tolerance_outside_range", e1 / t1)
@@ -291,14 +318,15 @@ def run_func_case(case):
         st["make1d_refused"] = 1
         if strict:
             # inside the reachable range the 1d grid must exist
-            viol.append(("func | make1dGrid refuses inside the reachable range | mode=%s" % mode,
+            viol.append(("func | make1dGrid refuses inside the reachable range | mode=%s | %s"
+                         % (mode, rc),
                          dict(n=n, r=case["r"])))
         grid = None
     if grid is not None:
         g2 = np.asarray(grid, dtype=float)
         d = np.diff(g2) * sgn
         if len(g2) != 2 * n + 1 or not np.all(d > 0.0):
-            viol.append(("func | make1dGrid result not strictly monotone | mode=%s" % mode,
+            viol.append(("func | make1dGrid result not strictly monotone | mode=%s | %s" % (mode, rc),
                          dict(grid=g2)))
         faces = np.array([float(f(i)) for i in range(n + 1)])
         if not np.array_equal(g2[::2], faces):
@@ -370,15 +398,20 @@ def run_cont_case(case):
     vals = [_f_at(case, r, probes) for r in rs]
     st["evaluations"] += len(rs)
     st["refused"] += sum(v is None for v in vals)
-    tol = K2_BOUND * K_STEP**2 + K_NOISE
     judged = 0
     for k in range(1, len(rs) - 1):
         if vals[k - 1] is None or vals[k] is None or vals[k + 1] is None:
             continue
         judged += 1
         sd = float(np.max(np.abs(vals[k + 1] - 2.0 * vals[k] + vals[k - 1]))) / abs(delta)
-        worst("cont_second_diff_over_tolerance", sd / tol)
-        worst("cont_second_diff_over_step2", max(sd - K_NOISE, 0.0) / K_STEP**2)
+        if rs[k - 1] <= SWITCH < rs[k + 1]:
+            # triple spanning the code's switch: continuity, a kink is allowed
+            tol = K_KINK * K_STEP + K2_BOUND * K_STEP**2 + K_NOISE
+            worst("cont_kink_at_switch_over_tolerance", sd / tol)
+        else:
+            tol = K2_BOUND * K_STEP**2 + K_NOISE
+            worst("cont_second_diff_over_tolerance", sd / tol)
+            worst("cont_second_diff_over_step2", max(sd - K_NOISE, 0.0) / K_STEP**2)
         if not sd <= tol:
             viol.append(("cont | spacing function jumps when the end gradient changes slightly | "
                          "mode=%s" % case["mode"],
@@ -596,7 +629,7 @@ def run_eq_config(cfg):
     if cfg["kind"] == "doubling":
         levels = [(1, None), (2, None)]
     else:
-        levels = [(1, dict(nx_core=n, nx_sol=n, nx_inter_sep=n)) for n in SMOOTH_NX]
+        levels = [(1, dict(nx_core=n, nx_sol=n, nx_inter_sep=ni)) for n, ni in SMOOTH_NX]
     built = []
     for scale_, ov in levels:
         o = _options(cfg, scale_, ov)
@@ -646,17 +679,22 @@ def run_eq_config(cfg):
         if all(d is not None for _, d in built):
             topo = "%dsep" % len(built[0][1]["psi_sep"])
             est = {}
-            for (o, d), n in zip(built, SMOOTH_NX):
+            for lev, (o, d) in enumerate(built):
+                exp = _expected_regions(cfg, o, d)
                 for r in d["regions"]:
                     pv = r["psi_vals"]
                     for k in range(len(pv) - 1):
-                        wa = (pv[k][-1] - pv[k][-3]) * n
-                        wb = (pv[k + 1][2] - pv[k + 1][0]) * n
+                        if r["name"] not in exp or exp[r["name"]][0][k + 1] is None:
+                            continue  # internal split of one spacing function, not a separatrix
+                        # widths in units of the level's refinement factor 2^lev
+                        wa = (pv[k][-1] - pv[k][-3]) * 2.0**lev
+                        wb = (pv[k + 1][2] - pv[k + 1][0]) * 2.0**lev
                         est.setdefault((r["name"], k), []).append((wa, wb))
+            x = np.array([1.0, 0.5, 0.25])
+            vand = np.stack([np.ones(3), x**2, x**3], axis=1)
             for key, lst in est.items():
-                (a1, b1), (a2, b2), (a3, b3) = lst
-                ga = (4.0 * a3 - a2) / 3.0
-                gb = (4.0 * b3 - b2) / 3.0
+                ga = float(np.linalg.solve(vand, np.array([t[0] for t in lst]))[0])
+                gb = float(np.linalg.solve(vand, np.array([t[1] for t in lst]))[0])
                 st["smooth_pairs"] += 1
                 rel = abs(ga - gb) / max(abs(ga), abs(gb))
                 worst("smooth_gradient_mismatch_over_tolerance", rel / SMOOTH_TOL)
@@ -711,7 +749,7 @@ def _report(ctx, kind, case, res):
 def run(ctx):
     warnings.simplefilter("ignore")
     seed = ctx.seed % 8
-    fc = func_cases(seed)
+    fc = func_cases(seed, ctx.tier)
     cc = cont_cases()
     ec = eq_configs(ctx.tier, seed)
     # the seed permutes the work order only (the lattices above do not depend on it except
@@ -774,7 +812,7 @@ def run(ctx):
     ctx.set("pure_lattice", dict(
         n=N_LIST, width=DELTAS, orderings=2, offsets=OFFSETS, modes=["none", "lower", "upper",
                                                                      "both", "both_asym", "mismatch"],
-        ratio_ladder_points=len(LADDER), switch_points=SWITCH_POINTS, seed_phase=PHASES[seed],
+        ratio_ladder_points=len(LADDER_THOROUGH if ctx.tier == "thorough" else LADDER), switch_points=SWITCH_POINTS, seed_phase=PHASES[seed],
         strict_range=[STRICT_LO, STRICT_HI], oversampling=OVERSAMPLE,
         continuity_ladder=dict(step=K_STEP, points=2 * K_HALF + 1, probes=K_PROBES),
         eq=dict(geoms=GEOMS, sigmas=SIGMAS, nx_vectors=NXVEC[ctx.tier],
